@@ -29,9 +29,10 @@ for d in sorted(glob.glob('seeded/*/')):
     fired=sorted(set(fired))
     meta['applies_to_current_tree']=True
     meta['obligations_fired_now']=fired
-    meta['detected']=bool(fired)
+    benign=str(meta.get('note_current_tree','')).startswith('behaviour-preserving')
+    meta['detected']=bool(fired) if not benign else 'n/a (behaviour-preserving on the current tree)'
     json.dump(meta,open(d+'meta.json','w'),indent=1)
-    rows.append((sid,meta.get('property','?'),'detected' if fired else 'MISSED',fired))
+    rows.append((sid,meta.get('property','?'),'detected' if fired else ('n/a: behaviour-preserving on the current tree (silent as required)' if benign else 'MISSED'),fired))
 with open('seeded/TABLE.md','w') as f:
     f.write('| seed | property | result on current tree | obligations that fire |\n|---|---|---|---|\n')
     for sid,prop,res,fired in rows:
